@@ -482,6 +482,19 @@ def _check_elems(vc, back, items, empty_ok, tag='element'):
         vc.check(name, val_eq(back[i], exp))
 
 
+def _length_prefixed(Sub, items):
+    """Cassandra's element layout inside collections / tuples / UDTs (protocol v3+): [int32 length][bytes], length -1 for null"""
+    from contracts.wire_common import cat
+    parts = []
+    for e in items:
+        if e is None:
+            parts.append(cser.be_signed(-1, 4))
+        else:
+            enc = sym.lift(Sub.serialize(e, 3))
+            parts.append(cat(cser.be_signed(enc.length(), 4), enc))
+    return parts
+
+
 def mk_listlike(prop, which, empty_ok):
     hname = '%s<%s>' % (which, 'empty_ok-subtype' if empty_ok else 'subtype')
 
@@ -503,6 +516,11 @@ def mk_listlike(prop, which, empty_ok):
             return
         b = sym.lift(b)
         vc.check('post/encoding-nonempty', b.length() > 0)
+        if prop == 'C02' and all(e is not None for e in items) and vc.ctx.branch((pv >= 3).t):
+            # Cassandra's CollectionSerializer: [int32 n] then [int32 length][bytes] per element.  (A null ELEMENT has no Cassandra encoding - the server
+            # rejects nulls inside collections; what the driver does with one is C01's known finding - so the layout is stated for non-null elements.)
+            from contracts.wire_common import cat
+            vc.check('post/byte-exact-layout-v3', b == sym.lift(cat(cser.be_signed(k, 4), *_length_prefixed(Sub, items))))
         back = vc.call(T.deserialize, b, pv)
         vc.check('post/count', isinstance(back, list) and len(back) == k)
         if isinstance(back, list) and len(back) == k:
@@ -549,16 +567,17 @@ def mk_map(prop, empty_ok):
     return h
 
 
-def mk_tuple(prop, udt):
-    @harness(prop, 'UserType' if udt else 'TupleType',
+def mk_tuple(prop, udt, empty_ok=False):
+    @harness(prop, ('UserType' if udt else 'TupleType') + ('<empty_ok-fields>' if empty_ok else ''),
              functions=[CT + ('UserType' if udt else 'TupleType') + '.serialize_safe', CT + 'TupleType.deserialize_safe'] +
              ([CT + 'UserType.deserialize_safe'] if udt else []), native='contracts.native.codec:replay_collection')
     def h(vc):
         from cassandra import cqltypes
-        Sub = abstract_subtype('VSub', ENC, DEC, False)
-        arity = vc.choice('arity', [1, 2, 3])
+        # empty_ok: field types like text / blob whose value may encode to ZERO bytes - a zero-length field is a value, only length -1 is null
+        Sub = abstract_subtype('VSubE' if empty_ok else 'VSub', ENC, DEC, empty_ok)
+        arity = vc.choice('arity', [1, 2, 3] if not empty_ok else [1, 2])
         if udt:
-            T = cqltypes.UserType.make_udt_class('verif_ks', 'verif_udt%d' % arity, tuple('f%d' % i for i in range(arity)), tuple([Sub] * arity))
+            T = cqltypes.UserType.make_udt_class('verif_ks', 'verif_udt%s%d' % ('e' if empty_ok else '', arity), tuple('f%d' % i for i in range(arity)), tuple([Sub] * arity))
             n = arity
         else:
             T = type('VerifTuple', (cqltypes.TupleType,), {'subtypes': tuple([Sub] * arity)})
@@ -570,6 +589,11 @@ def mk_tuple(prop, udt):
         vc.check('post/serialize-does-not-raise', kind == 'ok')
         if kind != 'ok':
             return
+        if prop == 'C02':
+            from contracts.wire_common import cat
+            # a tuple / UDT value is its fields in order, each [int32 length][bytes] with -1 for null; fields not given are simply absent (every version)
+            parts = _length_prefixed(Sub, items)
+            vc.check('post/byte-exact-layout', sym.lift(b) == sym.lift(cat(*parts) if parts else b''))
         back = vc.call(T.deserialize, b, pv)
         if isinstance(back, SObj):
             back = [back.attrs[f] for f in back.cls._fields]
